@@ -1,5 +1,6 @@
 mod util;
 mod p_c13;
+mod p_c01;
 mod p_c08;
 mod p_c25;
 mod p_c16;
@@ -64,6 +65,8 @@ fn main() {
     util::silence_panics();
     match a[1].as_str() {
         "c13" => p_c13::run(&o),
+        "c01vec" => p_c01::run_vectors(&o),
+        "c01" => p_c01::run(&o),
         "c08" => p_c08::run(&o),
         "c25t" => p_c25::run_cells(&o),
         "c25" => p_c25::run(&o),
